@@ -17,6 +17,7 @@ import ast
 
 from .. import sqlmini
 from ..critsec import inside, lock_withs
+from ..flow import call_args  # noqa: I001
 from ..flow import (call_name, calls_in, cfg_node_of, derived_names, func_cfg, names_in, parent_map,
                     self_attr, status_sites)
 from ..loader import AnalysisError, FuncInfo, walk_no_nested
@@ -312,7 +313,7 @@ def r5(ctx: Context, sites) -> None:
     look = [c for c in calls_in(g.node) if call_name(c) == "get_existing_invocations"]
     ok = len(look) == 1
     if ok:
-        kw = {k.arg: k.value for k in look[0].keywords}
+        kw = call_args(look[0], ["task", "key_serialized_arguments", "statuses"])
         ok = "statuses" in kw and ast.unparse(kw["statuses"]) == g.params[2] and "key_serialized_arguments" in kw and "serialized_args_for_concurrency_control" in ast.unparse(kw["key_serialized_arguments"]) and "running_concurrency" in ast.unparse(kw["key_serialized_arguments"]) and "task" in kw
     ctx.add("R5", "guard::lookup-by-task-key-and-statuses", ok, g.loc(), "" if ok else "the lookup does not use (task, key arguments for the running mode, the given statuses)")
     rets = [n for n in walk_no_nested(g.node) if isinstance(n, ast.Return)]
